@@ -109,13 +109,12 @@ def padSideX (w : Nat) (isRight rev swap negO negT : Bool) (neg : α → α)
   if isRight then (target.sliceX 0 (some (-wi))).concatX sl3
   else sl3.concatX (target.sliceX wi none)
 
-/-- both sides of one pad axis for one face (`for connection, is_right in [(left, False), (right, True)]`) -/
-def padAxisOfFace (c : FPCfg α) (data partner : Nat → Arr2 α) (face : Nat) (ax : String)
-    (target : Arr2 α) : Arr2 α :=
+/-- both sides of one pad axis, given the (left, right) links of the face on that axis
+    (`for connection, is_right in [(left, False), (right, True)]`) -/
+def padAxisWithLinks (c : FPCfg α) (data partner : Nat → Arr2 α)
+    (links : Option Link × Option Link) (ax : String) (target : Arr2 α) : Arr2 α :=
   let w := c.width
   if w = 0 then target else
-  let links : Option Link × Option Link :=
-    ((alookup face c.conn).bind (fun fl => alookup ax fl)).getD (none, none)
   let isX := ax = c.xAxis
   let one (t : Arr2 α) (lk : Option Link) (isRight : Bool) : Arr2 α :=
     match lk with
@@ -130,6 +129,12 @@ def padAxisOfFace (c : FPCfg α) (data partner : Nat → Arr2 α) (face : Nat) (
       else (padSideX w isRight rev swap negO negT c.neg t.transpose source.transpose).transpose
   let t1 := one target links.1 false
   one t1 links.2 true
+
+/-- `connection_single.get(axname, (None, None))` for face `face`, then both sides -/
+def padAxisOfFace (c : FPCfg α) (data partner : Nat → Arr2 α) (face : Nat) (ax : String)
+    (target : Arr2 α) : Arr2 α :=
+  padAxisWithLinks c data partner
+    (((alookup face c.conn).bind (fun fl => alookup ax fl)).getD (none, none)) ax target
 
 /-- the per-face loop body: all pad axes in order, starting from the face's own prepadded array -/
 def padFace (c : FPCfg α) (data partner : Nat → Arr2 α) (face : Nat) : Arr2 α :=
